@@ -31,7 +31,7 @@ def mapRangeSites : List (String × Nat × String) := [
   ("(kyaml/yaml/internal/k8sgen/pkg/util/sets.String).Union", 2, "collect-then-sort-or-set-algebra"),
   ("(kyaml/yaml/internal/k8sgen/pkg/util/sets.String).UnsortedList", 1, "collect-then-sort-or-set-algebra"),
   ("api/internal/accumulator.debug", 1, "error-or-check-only"),
-  ("api/internal/accumulator.loadCrdIntoConfig", 1, "insert-into-map-or-sorted-later"),
+  ("api/internal/accumulator.loadCrdTypeIntoConfig", 1, "insert-into-map-or-sorted-later"),
   ("api/internal/accumulator.makeConfigFromApiMap", 1, "insert-into-map-or-sorted-later"),
   ("api/resource.mergeStringMaps", 1, "insert-into-map-or-sorted-later"),
   ("kyaml/fn/runtime/runtimeutil.StringToStorageMount", 1, "outside-build-domain (functions, package IO)"),
